@@ -52,6 +52,59 @@ Proof.
   - destruct (f_card f1); try discriminate; reflexivity.
 Qed.
 
+(* ---------- members and the "@type" key ---------- *)
+Lemma dec_members_skip cd nm recd fps : forall ms st,
+  (forall kv, In kv ms -> fst kv <> s_at_type) ->
+  dec_members cd nm recd fps true ms st = dec_members cd nm recd fps false ms st.
+Proof.
+  induction ms as [|kv ms IH]; intros st H; [reflexivity|].
+  cbn [dec_members].
+  assert (Hm : dec_member cd nm recd fps true st kv = dec_member cd nm recd fps false st kv).
+  { unfold dec_member. rewrite (bs_eqb_neq _ _ (H kv (or_introl eq_refl))). reflexivity. }
+  rewrite Hm. destruct (dec_member cd nm recd fps false st kv) as [st'|e]; [|reflexivity].
+  cbn [jbind]. apply IH. intros kv' Hin. apply H. right. exact Hin.
+Qed.
+
+Lemma find_type_url_rest (ms : list (list byte * jv)) found :
+  (forall kv, In kv ms -> fst kv <> s_at_type) -> find_type_url ms found = JOk found.
+Proof.
+  revert found. induction ms as [|[k j] ms IH]; intros found H; [reflexivity|].
+  cbn [find_type_url]. rewrite (bs_eqb_neq k s_at_type (H (k, j) (or_introl eq_refl))).
+  apply IH. intros kv Hin. apply H. right. exact Hin.
+Qed.
+
+Lemma jmapM_concat_keys {A} (f : A -> jres (list (list byte * jv))) (name : A -> list byte) :
+  (forall a ms, f a = JOk ms -> forall kv, In kv ms -> fst kv = name a) ->
+  forall l mss, jmapM f l = JOk mss -> forall kv, In kv (concat mss) -> exists a, In a l /\ fst kv = name a.
+Proof.
+  intros Hf. induction l as [|a l IH]; intros mss H kv Hin.
+  - cbn [jmapM] in H. inversion H; subst. destruct Hin.
+  - cbn [jmapM] in H. destruct (f a) as [ms|] eqn:Ea; [|discriminate]. cbn [jbind] in H.
+    destruct (jmapM f l) as [mss'|] eqn:El; [|discriminate]. cbn [jbind] in H. inversion H; subst.
+    cbn [concat] in Hin. apply in_app_or in Hin. destruct Hin as [Hin|Hin].
+    + exists a. split; [left; reflexivity|]. eapply Hf; eassumption.
+    + destruct (IH mss' eq_refl kv Hin) as (a' & Ha' & E). exists a'. split; [right; exact Ha'|exact E].
+Qed.
+
+Lemma json_members_keys cd o S nm rect tid fs ms :
+  json_members cd o S nm rect tid fs = JOk ms ->
+  forall kv, In kv ms -> exists p, In p (rt_fields S nm tid) /\ fst kv = json_name o (snd p).
+Proof.
+  unfold json_members. intros H kv Hin.
+  destruct (jmapM (json_member cd o nm rect fs) (rt_field_order (rt_fields S nm tid))) as [mss|] eqn:E; [|discriminate].
+  cbn [jbind] in H. inversion H; subst ms.
+  destruct (jmapM_concat_keys (json_member cd o nm rect fs) (fun p => json_name o (snd p))) with (l := rt_field_order (rt_fields S nm tid)) (mss := mss) (kv := kv)
+    as (p & Hp & Ek); try assumption.
+  - intros a ms' Ha kv' Hin'. unfold json_member in Ha.
+    destruct (msg_fget fs (f_num (fst a))).
+    + destruct (o_emit_unpop o || o_emit_defaults o); [|inversion Ha; subst; destruct Hin'].
+      destruct (json_default cd o nm (fst a) (snd a)); inversion Ha; subst; [|destruct Hin'].
+      destruct Hin' as [<-|[]]. reflexivity.
+    + destruct (json_field_value cd o nm rect (fst a) (snd a) (v :: l)); [|discriminate]. cbn [jbind] in Ha.
+      inversion Ha; subst. destruct Hin' as [<-|[]]. reflexivity.
+  - exists p. split; [|exact Ek]. eapply Permutation.Permutation_in; [apply rt_field_order_perm|exact Hp].
+Qed.
+
 Definition is_jobj (j : jv) : Prop := exists l, j = JObj l.
 Definition is_jarr (j : jv) : Prop := exists l, j = JArr l.
 
@@ -88,6 +141,7 @@ Section W.
     no_special_groups nm fps = true /\
     match wkt_of nm tid with
     | 0 => True
+    | 1 => jany_shape fps = true
     | 2 | 3 => secs_nanos_shape fps = true
     | 4 => wrapper_shape fps = true
     | 5 => struct_shape nm fps = true
@@ -107,7 +161,7 @@ Section W.
   Qed.
 
   Lemma core2_cases tid : (tid < length S)%nat ->
-    wkt_of nm tid = 0 \/ wkt_of nm tid = 2 \/ wkt_of nm tid = 3 \/ wkt_of nm tid = 4 \/ wkt_of nm tid = 5 \/ wkt_of nm tid = 6 \/ wkt_of nm tid = 7 \/ wkt_of nm tid = 8 \/ wkt_of nm tid = 9.
+    wkt_of nm tid = 0 \/ wkt_of nm tid = 1 \/ wkt_of nm tid = 2 \/ wkt_of nm tid = 3 \/ wkt_of nm tid = 4 \/ wkt_of nm tid = 5 \/ wkt_of nm tid = 6 \/ wkt_of nm tid = 7 \/ wkt_of nm tid = 8 \/ wkt_of nm tid = 9.
   Proof.
     intros Hlt. destruct (core2_at tid Hlt) as [_ H].
     destruct (wkt_of nm tid) as [|p]; [auto|].
@@ -281,6 +335,130 @@ Section W.
       destruct (Hentry _ _ (or_intror (or_introl eq_refl))) as (K2' & _).
       destruct (Hentry _ _ (or_intror (or_intror (or_introl eq_refl)))) as (K3' & _).
       cbn [msg_sorted fst] in Hs. destruct Hs as (_ & Hl1 & Hl2 & _). lia.
+  Qed.
+
+  (* ---- Any ---- *)
+  Lemma jany_fs tid fs :
+    (tid < length S)%nat -> wkt_of nm tid = 1 ->
+    msg_keys_sorted 0 fs = true -> forallb (jvalid_chunk nm recv (rt_fields S nm tid)) fs = true ->
+    map sp fs = fs /\
+    fs = (match get_bytes fs 1 with [] => [] | u => [(1, [VS (SBy u)])] end)
+         ++ (match get_bytes fs 2 with [] => [] | b => [(2, [VS (SBy b)])] end) /\
+    (has_field fs 1 = false -> get_bytes fs 1 = []) /\ (has_field fs 2 = false -> get_bytes fs 2 = []) /\
+    (has_field fs 1 = true -> get_bytes fs 1 <> [] /\ msg_utf8_valid (get_bytes fs 1) = true).
+  Proof.
+    intros Hlt Hw Hs Hc. destruct (core2_at tid Hlt) as [_ Hsh]. rewrite Hw in Hsh.
+    apply msg_keys_sorted_spec in Hs.
+    pose proof (jchunks_of S nm recv tid fs Hc) as Hchunks.
+    unfold jany_shape in Hsh.
+    destruct (rt_fields S nm tid) as [|[f1 n1] [|[f2 n2] [|? ?]]]; try discriminate.
+    apply andb_prop in Hsh. destruct Hsh as [Hsh Hk]. apply andb_prop in Hsh. destruct Hsh as [Hsh _].
+    apply andb_prop in Hsh. destruct Hsh as [Hsh _]. apply andb_prop in Hsh. destruct Hsh as [N1 N2].
+    apply N.eqb_eq in N1, N2.
+    destruct (f_card f1) eqn:C1; try discriminate. destruct (f_kind f1) as [[]| |] eqn:K1; try discriminate.
+    destruct (f_card f2) eqn:C2; try discriminate. destruct (f_kind f2) as [[]| |] eqn:K2; try discriminate.
+    assert (Hentry : forall k vs, In (k, vs) fs ->
+              (k = 1 /\ exists b, b <> [] /\ msg_utf8_valid b = true /\ vs = [VS (SBy b)]) \/
+              (k = 2 /\ exists b, b <> [] /\ vs = [VS (SBy b)])).
+    { intros k vs Hin. destruct (Hchunks k vs Hin) as (p & Hp & Hk' & Hv). unfold fp_num in Hk'.
+      destruct Hp as [<-|[<-|[]]]; cbn [fst snd] in *; unfold jvalid_field in Hv.
+      - rewrite C1 in Hv. destruct vs as [|[s| |] [|? ?]]; try discriminate.
+        apply andb_prop in Hv. destruct Hv as [Hv Hnz]. unfold jvalid_elem in Hv. rewrite K1 in Hv.
+        unfold json_scalar_ok, rt_scalar_ok in Hv. destruct s as [| | |b]; cbn [sk_ok andb] in Hv; try discriminate.
+        left. split; [lia|]. exists b. split; [intros ->; discriminate|]. split; [|reflexivity].
+        apply andb_prop in Hv. destruct Hv as [Hv _]. apply andb_prop in Hv. destruct Hv as [Hv _]. exact Hv.
+      - rewrite C2 in Hv. destruct vs as [|[s| |] [|? ?]]; try discriminate.
+        apply andb_prop in Hv. destruct Hv as [Hv Hnz]. unfold jvalid_elem in Hv. rewrite K2 in Hv.
+        unfold json_scalar_ok, rt_scalar_ok in Hv. destruct s as [| | |b]; cbn [sk_ok andb] in Hv; try discriminate.
+        right. split; [lia|]. exists b. split; [intros ->; discriminate|reflexivity]. }
+    unfold has_field, get_bytes.
+    destruct fs as [|[k1 v1] [|[k2 v2] [|[k3 v3] r]]].
+    - repeat split; try reflexivity; try discriminate.
+    - destruct (Hentry _ _ (or_introl eq_refl)) as [(-> & b & Hb & Hu & ->)|(-> & b & Hb & ->)];
+        cbn [msg_fget N.eqb Pos.eqb map sp fst snd strip_unknown]; (destruct b; [congruence|]);
+        repeat split; try reflexivity; try discriminate; try assumption.
+    - destruct (Hentry _ _ (or_introl eq_refl)) as [(K1' & b1 & Hb1 & Hu1 & ->)|(K1' & b1 & Hb1 & ->)];
+      destruct (Hentry _ _ (or_intror (or_introl eq_refl))) as [(K2' & b2 & Hb2 & Hu2 & ->)|(K2' & b2 & Hb2 & ->)];
+      cbn [msg_sorted fst] in Hs; destruct Hs as (_ & Hlt' & _); try lia. subst k1 k2.
+      cbn [msg_fget N.eqb Pos.eqb map sp fst snd strip_unknown].
+      destruct b1; [congruence|]. destruct b2; [congruence|].
+      repeat split; try reflexivity; try discriminate; try assumption.
+    - exfalso.
+      assert (H1 : k1 = 1 \/ k1 = 2) by (destruct (Hentry _ _ (or_introl eq_refl)) as [(K & _)|(K & _)]; auto).
+      assert (H2 : k2 = 1 \/ k2 = 2) by (destruct (Hentry _ _ (or_intror (or_introl eq_refl))) as [(K & _)|(K & _)]; auto).
+      assert (H3 : k3 = 1 \/ k3 = 2) by (destruct (Hentry _ _ (or_intror (or_intror (or_introl eq_refl)))) as [(K & _)|(K & _)]; auto).
+      cbn [msg_sorted fst] in Hs. destruct Hs as (_ & Hl1 & Hl2 & _). lia.
+  Qed.
+
+  Lemma any_rt tid fs :
+    (tid < length S)%nat -> wkt_of nm tid = 1 ->
+    msg_keys_sorted 0 fs = true -> forallb (jvalid_chunk nm recv (rt_fields S nm tid)) fs = true ->
+    jvalid_any true (o_emit_unpop o) S nm lim recv fs = true ->
+    exists j, json_any cd o S nm lim rect fs = JOk j /\ is_jnull j = false /\
+              dec_any cd S nm recd j = JOk (VMsg (map sp fs) []).
+  Proof.
+    intros Hlt Hw Hs Hc Hany.
+    destruct (jany_fs tid fs Hlt Hw Hs Hc) as (Hsp & Hfs & H1 & H2 & H1').
+    rewrite Hsp. unfold jvalid_any in Hany. unfold json_any.
+    destruct (has_field fs 1) eqn:E1; cbn [negb] in *.
+    - (* a type URL *)
+      destruct (H1' eq_refl) as [Hune Hutf]. set (url := get_bytes fs 1) in *. set (b2 := get_bytes fs 2) in *.
+      destruct (resolve_url nm url) as [t|] eqn:Eres; [|discriminate].
+      destruct (msg_decode false S lim t b2) as [em|] eqn:Edec; [|discriminate].
+      apply andb_prop in Hany. destruct Hany as [Hany Henc]. apply andb_prop in Hany. destruct Hany as [Htl Hval].
+      apply Nat.ltb_lt in Htl. apply bs_eqb_eq in Henc. rewrite Hutf. cbn [negb].
+      assert (Hresult : any_of S url t (strip_unknown em) = VMsg fs []).
+      { unfold any_of. rewrite Henc. rewrite Hfs. destruct url; [congruence|]. destruct b2; reflexivity. }
+      destruct url as [|u0 url'] eqn:Eurl; [congruence|]. rewrite <- Eurl in *.
+      change (mn_wkt (nm_msg nm t)) with (wkt_of nm t).
+      destruct (is_special_wkt (wkt_of nm t)) eqn:Esp.
+      + (* embedded special type: {"@type": url, "value": ...} *)
+        destruct (Hrec t em Hval) as (j & Hj & _ & Hd). rewrite Hj. cbn [jbind].
+        eexists. split; [reflexivity|]. split; [reflexivity|].
+        unfold dec_any. cbn [find_type_url]. rewrite bs_eqb_refl. rewrite Eurl. cbn iota. rewrite <- Eurl.
+        change (bs_eqb s_value s_at_type) with false. cbn iota. cbn [find_type_url jbind]. rewrite Eres.
+        change (mn_wkt (nm_msg nm t)) with (wkt_of nm t).
+        assert (Hw0 : (wkt_of nm t =? 0) = false).
+        { unfold is_special_wkt in Esp. apply andb_prop in Esp. destruct Esp as [Esp _]. apply negb_true_iff in Esp. exact Esp. }
+        rewrite Hw0. cbn [negb]. cbn [dec_any_value]. rewrite bs_eqb_refl.
+        change (bs_eqb s_value s_at_type) with false. change (bs_eqb s_value s_value) with true. cbn iota.
+        rewrite Hd. cbn [jbind dec_any_value]. rewrite Hresult. reflexivity.
+      + (* embedded ordinary message (or Empty): {"@type": url, members...} *)
+        unfold jvalid_body in Hval. destruct em as [|efs eunk|]; try discriminate.
+        pose proof Hval as Hval0.
+        apply andb_prop in Hval. destruct Hval as [Hval Hf11]. apply andb_prop in Hval. destruct Hval as [Hval Ho].
+        apply andb_prop in Hval. destruct Hval as [Hes Hec].
+        destruct (json_ordinary_rt cd Hb64 o S nm Hschema recv rect recd Hrec' t efs Htl) as (ms & Hm & Hd); try assumption.
+        { apply (groups_ok t Htl). }
+        rewrite Hm. cbn [jbind]. eexists. split; [reflexivity|]. split; [reflexivity|].
+        assert (Hkeys : forall kv, In kv ms -> fst kv <> s_at_type).
+        { intros kv Hin. destruct (json_members_keys _ _ _ _ _ _ _ _ Hm kv Hin) as (p & Hp & ->).
+          apply (jschema_no_at_type S nm Hschema o t Htl p Hp). }
+        unfold dec_any. cbn [find_type_url]. rewrite bs_eqb_refl. rewrite Eurl. cbn iota. rewrite <- Eurl.
+        rewrite (find_type_url_rest ms (Some url) Hkeys). cbn [jbind]. rewrite Eres.
+        change (mn_wkt (nm_msg nm t)) with (wkt_of nm t).
+        change (strip_unknown (VMsg efs eunk)) with (VMsg (map sp efs) []) in Hresult.
+        destruct (wkt_of nm t =? 0) eqn:Hw0; cbn [negb].
+        * (* ordinary *)
+          assert (Hdo : dec_ordinary cd S nm recd t true ((s_at_type, JStr url) :: ms) = JOk (VMsg (map sp efs) [])).
+          { unfold dec_ordinary in *. cbn [dec_members]. unfold dec_member at 1. cbn [fst andb]. rewrite bs_eqb_refl.
+            cbn [jbind]. rewrite (dec_members_skip cd nm recd _ ms _ Hkeys). exact Hd. }
+          rewrite Hdo. cbn [jbind]. rewrite Hresult. reflexivity.
+        * (* Empty: no members *)
+          unfold is_special_wkt in Esp. rewrite Hw0 in Esp. cbn [negb andb] in Esp. apply negb_false_iff in Esp.
+          apply N.eqb_eq in Esp.
+          destruct (core2_at t Htl) as [_ Hsh]. rewrite Esp in Hsh.
+          assert (ms = []) as ->.
+          { unfold json_members in Hm. rewrite Hsh in Hm. unfold rt_field_order in Hm. cbn in Hm. inversion Hm. reflexivity. }
+          assert (efs = []) as ->.
+          { destruct efs as [|[k vs] r]; [reflexivity|].
+            destruct (jchunks_of S nm recv t _ Hec k vs (or_introl eq_refl)) as (p & Hp & _). rewrite Hsh in Hp. destruct Hp. }
+          cbn [dec_any_value]. rewrite bs_eqb_refl. cbn [dec_any_value jbind]. rewrite Esp. cbn [N.eqb Pos.eqb].
+          cbn [map] in Hresult. rewrite Hresult. reflexivity.
+    - (* empty Any *)
+      apply negb_true_iff in Hany. rewrite Hany.
+      eexists. split; [reflexivity|]. split; [reflexivity|].
+      rewrite Hfs, (H1 eq_refl), (H2 Hany). reflexivity.
   Qed.
 
   (* ---- FieldMask ---- *)
@@ -494,7 +672,7 @@ Section WMain.
   Hypothesis Hdur : forall s n, dur_in_range s n = true -> dur_parse cd (dur_fmt cd s n) = Some (s, n).
 
   Theorem json_roundtrip_wkt : forall fuel tid v,
-    json_valid2 true (o_emit_unpop o) S nm fuel tid v = true ->
+    json_valid2 true (o_emit_unpop o) S nm lim fuel tid v = true ->
     exists j, to_json_msg cd o S nm lim fuel tid v = JOk j /\ shape_ok (wkt_of nm tid) j /\
               of_json_msg cd S nm fuel tid j = JOk (strip_unknown v).
   Proof.
@@ -502,7 +680,7 @@ Section WMain.
     cbn [json_valid2] in H. apply andb_prop in H. destruct H as [H Hrange]. apply andb_prop in H. destruct H as [H Hextra].
     apply andb_prop in H. destruct H as [Hlt Hb]. apply Nat.ltb_lt in Hlt.
     cbn [to_json_msg of_json_msg].
-    set (recv := json_valid2 true (o_emit_unpop o) S nm f) in *.
+    set (recv := json_valid2 true (o_emit_unpop o) S nm lim f) in *.
     set (rect := to_json_msg cd o S nm lim f) in *.
     set (recd := of_json_msg cd S nm f) in *.
     pose proof (Hrec' nm recv rect recd IH) as Hrec1.
@@ -511,13 +689,18 @@ Section WMain.
     apply andb_prop in Hb. destruct Hb as [Hb Hf11]. apply andb_prop in Hb. destruct Hb as [Hb Ho].
     apply andb_prop in Hb. destruct Hb as [Hs Hc].
     unfold json_msg_body, of_json_body. change (mn_wkt (nm_msg nm tid)) with (wkt_of nm tid) in *.
-    destruct (core2_cases S nm Hcore2 recv rect recd IH tid Hlt) as [E|[E|[E|[E|[E|[E|[E|[E|E]]]]]]]]; rewrite E in *; cbn iota.
+    destruct (core2_cases S nm Hcore2 recv rect recd IH tid Hlt) as [E|[E|[E|[E|[E|[E|[E|[E|[E|E]]]]]]]]]; rewrite E in *; cbn iota.
     - (* ordinary *)
       change (strip_unknown (VMsg fs unk)) with (VMsg (map sp fs) []).
       destruct (json_ordinary_rt cd Hb64 o S nm Hschema recv rect recd Hrec1 tid fs Hlt) as (ms & Hm & Hd); try assumption.
       { apply (groups_ok S nm Hcore2 recv rect recd IH tid Hlt). }
       rewrite Hm. cbn [jbind]. eexists. split; [reflexivity|]. split; [|exact Hd].
       split; [discriminate|]. split; discriminate.
+    - (* Any *)
+      change (strip_unknown (VMsg fs unk)) with (VMsg (map sp fs) []).
+      destruct (any_rt cd Hb64 o S nm lim Hschema Hcore2 recv rect recd IH tid fs Hlt E Hs Hc Hrange) as (j & Hj & Hnn & Hd).
+      exists j. split; [exact Hj|]. split; [|exact Hd].
+      split; [rewrite Hnn; discriminate|]. split; discriminate.
     - (* Timestamp *)
       change (strip_unknown (VMsg fs unk)) with (VMsg (map sp fs) []).
       destruct (secs_nanos_fs cd S nm Hcore2 Hts Hdur recv rect recd IH tid fs Hlt (or_introl E) Hs Hc) as [Hsp Hfs].
@@ -576,7 +759,7 @@ End WMain.
 Theorem json_roundtrip_wkt_except_F11_partial cd (o : jopts) S nm lim fuel tid v :
   codec_ok cd ->
   json_schema_ok S nm = true -> json_core2 S nm = true ->
-  json_valid2 true (o_emit_unpop o) S nm fuel tid v = true ->
+  json_valid2 true (o_emit_unpop o) S nm lim fuel tid v = true ->
   exists j, to_json cd o S nm lim fuel tid v = JOk j /\ of_json cd S nm fuel tid j = JOk (strip_unknown v).
 Proof.
   intros (Hb & Ht & Hd0) Hs Hc Hv.
@@ -592,7 +775,7 @@ Theorem json_roundtrip_std_except_F11_partial (o : jopts) S nm lim fuel tid v :
   (forall s n, ts_in_range s n = true -> ts_parse_canon (ts_format s n) = Some (s, n)) ->
   (forall s n, dur_in_range s n = true -> dur_parse_s (dur_format s n) = Some (s, n)) ->
   json_schema_ok S nm = true -> json_core2 S nm = true ->
-  json_valid2 true (o_emit_unpop o) S nm fuel tid v = true ->
+  json_valid2 true (o_emit_unpop o) S nm lim fuel tid v = true ->
   exists j, to_json std_codec o S nm lim fuel tid v = JOk j /\ of_json std_codec S nm fuel tid j = JOk (strip_unknown v).
 Proof.
   intros Ht Hd. apply json_roundtrip_wkt_except_F11_partial. split; [exact std_codec_b64|]. split; assumption.
@@ -601,7 +784,7 @@ Qed.
 Theorem json_marshal_total_wkt_partial cd (o : jopts) S nm lim fuel tid v :
   codec_ok cd ->
   json_schema_ok S nm = true -> json_core2 S nm = true ->
-  json_valid2 true (o_emit_unpop o) S nm fuel tid v = true ->
+  json_valid2 true (o_emit_unpop o) S nm lim fuel tid v = true ->
   exists j, to_json cd o S nm lim fuel tid v = JOk j.
 Proof.
   intros Hb Hs Hc Hv. destruct (json_roundtrip_wkt_except_F11_partial cd o S nm lim fuel tid v Hb Hs Hc Hv) as (j & Hj & _).
